@@ -201,7 +201,9 @@ void note_progress(int me, bool modifying, uintptr_t addr) {
     // wake spinners watching this location
     for (int i = 1; i <= G_.nth; i++) {
       Th* o = G_.th[i];
-      if (o->spinning && std::find(o->watch.begin(), o->watch.end(), addr) != o->watch.end()) { o->spinning = false; o->ro = 0; o->watch.clear(); }
+      // a write to a location another thread has been polling changes that thread's environment: its
+      // read-only streak starts over (it counts as spinning only if nobody wrote what it reads)
+      if (i != me && std::find(o->watch.begin(), o->watch.end(), addr) != o->watch.end()) { o->spinning = false; o->ro = 0; o->watch.clear(); }
     }
   } else {
     t->ro++;
